@@ -61,7 +61,7 @@ RECURSIVE HexVal(_, _)
 HexVal(s, acc) == IF s = <<>> THEN acc ELSE HexVal(Tail(s), acc * 16 + (IF IsDigit(s[1]) THEN s[1] - 48 ELSE s[1] - 55))
 TrimL(s) == LET c == { k \in 1..Len(s) : s[k] # 32 } IN IF c = {} THEN <<>> ELSE SubSeq(s, CHOOSE k \in c : \A j \in c : k <= j, Len(s))
 TrimR(s) == LET c == { k \in 1..Len(s) : s[k] # 32 } IN IF c = {} THEN <<>> ELSE SubSeq(s, 1, CHOOSE k \in c : \A j \in c : k >= j)
-TextVal(s0) ==
+TextVal0(s0) ==
   LET s == TrimR(TrimL(s0))
       neg == s # <<>> /\ s[1] = 45
       body == IF s # <<>> /\ s[1] \in {43, 45} THEN Tail(s) ELSE s
@@ -70,6 +70,7 @@ TextVal(s0) ==
       fp == IF dots = {} THEN <<>> ELSE SubSeq(body, (CHOOSE k \in dots : TRUE) + 1, Len(body)) IN
   IF s = <<>> THEN Zero
   ELSE IF Len(s) >= 3 /\ s[1] = 38 /\ s[2] = 72 /\ Len(s) <= 6 /\ \A k \in 3..Len(s) : IsHexDigit(s[k]) THEN Q(HexVal(SubSeq(s, 3, Len(s)), 0), 1)
+  ELSE IF body = <<46>> THEN Zero
   ELSE IF Cardinality(dots) > 1 \/ ~DecDigits(ip) \/ ~DecDigits(fp) \/ (ip = <<>> /\ fp = <<>>) THEN
        (IF body # <<>> /\ ~IsDigit(body[1]) /\ body[1] # 46 THEN (IF body[1] = 38 THEN Sym ELSE Zero) ELSE Sym)
   ELSE IF Len(ip) > 4 \/ Len(fp) > 3 THEN Sym
@@ -77,6 +78,24 @@ TextVal(s0) ==
            den == PowI(10, Len(fp))
            q == Q(iv * den + fv, den) IN
        IF IsNum(q) /\ neg THEN Neg(q) ELSE q
+\* mantissa E exponent (Color BASIC: an exponent without digits is 0, a mantissa without digits is 0, signs fold)
+SplitAtE(s) == LET c == { k \in 1..Len(s) : s[k] = 69 } IN
+               IF c = {} THEN <<s, <<>>, FALSE>> ELSE LET k == CHOOSE x \in c : \A y \in c : x <= y IN <<SubSeq(s, 1, k - 1), SubSeq(s, k + 1, Len(s)), TRUE>>
+NoBlanks(s) == SelectSeq(s, LAMBDA c : c # 32)
+SignOf(s) == LET lead == { k \in 1..Len(s) : \A j \in 1..k : s[j] \in {43, 45} }
+                 n == Cardinality({ k \in lead : s[k] = 45 }) IN <<Cardinality(lead), n % 2 = 1>>
+ExpVal(e) == LET sg == SignOf(e)  ds == SubSeq(e, sg[1] + 1, Len(e)) IN
+             IF ~DecDigits(ds) \/ Len(ds) > 2 THEN 99 ELSE (IF sg[2] THEN -1 ELSE 1) * DigitsVal(ds, 0)
+TextVal(s00) ==
+  LET sp == SplitAtE(NoBlanks(s00))
+      hasE == sp[3]
+      sg0 == SignOf(sp[1])
+      \* plain decimal text with the leading signs folded into at most one minus
+      s0 == IF hasE \/ sg0[1] > 1 THEN (IF sg0[2] THEN <<45>> ELSE <<>>) \o SubSeq(sp[1], sg0[1] + 1, Len(sp[1])) ELSE s00
+      ev == IF hasE THEN ExpVal(sp[2]) ELSE 0
+      Scale(v) == IF ~hasE \/ ~IsNum(v) THEN v ELSE IF ev = 99 \/ ev > 4 \/ ev < -4 THEN Sym
+                  ELSE IF ev >= 0 THEN Mul(v, Num(PowI(10, ev))) ELSE Div(v, Num(PowI(10, -ev))) IN
+  Scale(TextVal0(IF hasE /\ SubSeq(sp[1], sg0[1] + 1, Len(sp[1])) \in {<<>>, <<46>>} THEN <<48>> ELSE s0))
 HexDigit(n) == IF n < 10 THEN 48 + n ELSE 55 + n
 RECURSIVE HexText(_)
 HexText(n) == IF n < 16 THEN <<HexDigit(n)>> ELSE HexText(n \div 16) \o <<HexDigit(n % 16)>>
@@ -152,7 +171,7 @@ AutoDim(st, name, rank) ==
   IF HasKey(st.arr, name) THEN st ELSE [st EXCEPT !.arr = Put(@, name, [dims |-> [k \in 1..rank |-> 10], cells |-> EmptyF])]
 EvD(tr, st) ==
   CASE tr[1] = "num" -> <<Q(tr[2], tr[3]), st>>
-    [] tr[1] = "big" -> <<Sym, st>>
+    [] tr[1] = "big" -> <<IF tr[3] # <<>> THEN TextVal(tr[3]) ELSE Sym, st>>
     [] tr[1] = "str" -> <<Str(tr[2]), st>>
     [] tr[1] = "var" -> <<VarGetD(st, tr[2], tr[3]), st>>
     [] tr[1] = "par" -> EvD(tr[2], st)
@@ -624,6 +643,7 @@ Step1(prog, lang, st0) ==
                          ELSE
                             LET v == EvB(it, s1) IN
                             IF IsBad(v) THEN BadStatus(s1, v, lang, "read")
+                            ELSE IF IsStr(v) /\ LvTy(lv) # "$" THEN Stop(s1, "error", "type:string-item-read-into-numeric-variable")
                             ELSE IF ~TypeOkB(LvTy(lv), v) THEN Stop(s1, "unjudged", "read-type-mismatch")
                             ELSE StoreB(s1, lv, v, "READ"), st, ins.a) IN
          IF r.status = "run" THEN [r EXCEPT !.pc = @ + 1] ELSE r
